@@ -162,7 +162,8 @@ def _same(impl_vals, model_vals):
 
 
 def hht_compare(out, results, do_1d=True):
-    """Exact correspondence of dense, sparse triplets (in order) and the 1-D spectrum."""
+    """Exact correspondence of dense, sparse triplets (as a multiset: the storage order of COO triplets is not
+    observable through the matrix they denote) and the 1-D spectrum."""
     r = results[0]
     d, s = out['dense'], out['sparse']
     if r.status == 'err':
@@ -178,7 +179,9 @@ def hht_compare(out, results, do_1d=True):
             return 'shape: impl dense %s sparse %s, model [%d, %d]' % (d['shape'], s['shape'], nb, T)
         if not _same(d['v'], r.vecs[0]):
             return 'dense differs: impl %s model %s' % (d['v'][:24], r.raw[:200])
-        if s['row'] != [int(v) for v in r.vecs[1]] or s['col'] != [int(v) for v in r.vecs[2]] or not _same(s['data'], r.vecs[3]):
+        impl_trip = sorted(zip(s['row'], s['col'], [proto.fr(v) for v in s['data']]))
+        model_trip = sorted(zip([int(v) for v in r.vecs[1]], [int(v) for v in r.vecs[2]], list(r.vecs[3] or [])))
+        if impl_trip != model_trip:
             return 'sparse triplets differ: impl rows %s cols %s data %s; model %s' % (s['row'][:12], s['col'][:12], s['data'][:12], r.raw[:240])
     else:
         return 'model answered %s' % r.raw[:100]
